@@ -45,10 +45,13 @@ VARIABLES
   healed,    \* the fault-free period has begun (deliveries are concurrent from here on)
   s5,        \* signature of known finding S5 occurred in this scenario (see KF_S5)
   hl,        \* healthy period in force: [on, leader, maj, term]
+  fsmc,      \* <<node, inc>> -> largest operation index the state machine instance contains
+  taken,     \* set of <<index, term, hash, size>> snapshots produced by a node's own takeSnapshot
+  sopen,     \* node -> label index of the snapshot it last opened for reading
   bad        \* set of violation records
 
 vars == <<l, meta, dur, pstate, maxterm, votes, applied, cursor, leaders, lfirst, committed,
-          reqs, hpre, stat, inv, wdone, rdone, retd, dead, mtrack, mwait, finals, healed, s5, hl, bad>>
+          reqs, hpre, stat, inv, wdone, rdone, retd, dead, mtrack, mwait, finals, healed, s5, hl, fsmc, taken, sopen, bad>>
 
 -----------------------------------------------------------------------------
 Ev == Trace[l]
@@ -564,6 +567,72 @@ C16_Healthy ==
        THEN {V("C16", "MajorityTermIncreased", <<Ev.node, hl.term, Ev.term>>)} ELSE {})
 
 -----------------------------------------------------------------------------
+(* C10 -- snapshots are exact; C11 -- compaction / installation never lose or resurrect state *)
+LastOf(q) == IF Len(q) = 0 THEN 0 ELSE q[Len(q)]
+SeqSet(q) == {q[j] : j \in 1..Len(q)}
+Increasing(q) == \A j \in 1..(Len(q) - 1) : q[j] < q[j + 1]
+\* the operation indices a state that "contains everything up to k" holds
+ExactUpTo(q, k) == Increasing(q) /\ SeqSet(q) = {j \in DOMAIN applied : j <= k}
+
+OwnSnapshot   == Is("snap_close") /\ ~Has("err") /\ Ev.ctx = ""      \* published by takeSnapshot
+InstSnapshot  == Is("snap_close") /\ ~Has("err") /\ Ev.ctx = "h"     \* published by InstallSnapshot
+
+NextFsmc ==
+  IF Is("scenario") THEN <<>>
+  ELSE IF Is("apply") THEN Put(fsmc, Inst, Max(Get(fsmc, Inst, 0), Ev.index))
+  ELSE IF Is("restore") THEN Put(fsmc, Inst, LastOf(Ev.content))
+  ELSE fsmc
+
+CfgIdxUpTo(k) == {j \in DOMAIN committed : committed[j].k = 2 /\ j <= k}
+
+C10_Snapshot ==
+  IF ~(Is("snap_close") /\ ~Has("err")) THEN {} ELSE
+    (IF ~Ev.ok THEN {V("C10", "SnapshotNotASnapshot", <<Ev.node, Ev.index, Ev.size>>)} ELSE {})
+    \cup
+    \* exactly the operations up to the label: none later, none missing
+    (IF Ev.ok /\ ~ExactUpTo(Ev.content, Ev.index)
+       THEN {V("C10", "SnapshotNotExact", <<Ev.node, Ev.ctx, Ev.index, Ev.content, {j \in DOMAIN applied : j <= Ev.index}>>)} ELSE {})
+    \cup
+    \* carries the configuration committed at the label
+    (IF CfgIdxUpTo(Ev.index) # {} /\ Ev.cfg.i # (CHOOSE j \in CfgIdxUpTo(Ev.index) : \A m \in CfgIdxUpTo(Ev.index) : m <= j)
+       THEN {V("C10", "SnapshotWrongConfiguration", <<Ev.node, Ev.index, Ev.cfg.i, CfgIdxUpTo(Ev.index)>>)} ELSE {})
+
+C10_Fsm ==
+  (IF Is("restore") /\ (~Ev.ok \/ ~ExactUpTo(Ev.content, LastOf(Ev.content)))
+     THEN {V("C10", "RestoredStateNotExact", <<Ev.node, Ev.ok, Ev.content>>)} ELSE {})
+  \cup
+  (IF Is("apply") /\ Inst \in DOMAIN fsmc /\ Ev.index <= fsmc[Inst]
+     THEN {V("C10", "OperationAppliedTwice", <<Ev.node, Ev.index, fsmc[Inst]>>)} ELSE {})
+  \cup
+  (IF Is("apply") /\ \E j \in DOMAIN applied : j > Get(fsmc, Inst, 0) /\ j < Ev.index
+     THEN {V("C10", "OperationSkipped", <<Ev.node, Ev.index, Get(fsmc, Inst, 0)>>)} ELSE {})
+
+C11_Log ==
+  \* the real log after a compaction is what compaction means: nothing beyond the boundary is lost
+  (IF (Is("log_compact") \/ Is("log_discard") \/ Is("log_truncate") \/ Is("log_append")) /\ ~Has("err") /\ Has("last")
+      /\ (Ev.last # LastIdx(LogAfter(Log(Ev.node))) \/ Ev.size # Len(LogAfter(Log(Ev.node)).ents))
+     THEN {V("C11", "LogAfterOperationDiffers", <<Ev.ev, Ev.node, Ev.last, Ev.size, LastIdx(LogAfter(Log(Ev.node)))>>)} ELSE {})
+  \cup
+  \* discarding the whole log must not drop a committed entry beyond the snapshot
+  (IF Is("log_discard") /\ ~Has("err")
+      /\ \E i \in DOMAIN committed : i > Ev.index /\ HasIdx(Log(Ev.node), i) /\ At(Log(Ev.node), i) = committed[i]
+     THEN {V("C11", "DiscardedCommittedEntry", <<Ev.node, Ev.index>>)} ELSE {})
+  \cup
+  \* applied and commit index never move backwards within an incarnation
+  (IF Is("status") /\ Ev.node \in DOMAIN stat /\ stat[Ev.node].inc = Ev.inc
+      /\ (Ev.commit < stat[Ev.node].commit \/ Ev.applied < stat[Ev.node].applied)
+     THEN {V("C11", "IndexMovedBackwards", <<Ev.node, stat[Ev.node].commit, stat[Ev.node].applied, Ev.commit, Ev.applied>>)} ELSE {})
+  \cup
+  \* a snapshot older than what the node has applied is never installed
+  (IF Is("restore_begin") /\ Ev.node \in DOMAIN sopen /\ Ev.node \in DOMAIN stat /\ stat[Ev.node].inc = Ev.inc
+      /\ sopen[Ev.node] < stat[Ev.node].applied
+     THEN {V("C11", "InstalledOlderThanApplied", <<Ev.node, sopen[Ev.node], stat[Ev.node].applied>>)} ELSE {})
+  \cup
+  \* an installed snapshot is, byte for byte, a snapshot some node produced
+  (IF InstSnapshot /\ <<Ev.index, Ev.term, Ev.h, Ev.size>> \notin taken
+     THEN {V("C11", "InstalledSnapshotNotFromSender", <<Ev.node, Ev.index, Ev.term, Ev.size, Ev.h>>)} ELSE {})
+
+-----------------------------------------------------------------------------
 Recorder ==   \* recorder / reconstruction sanity: reported separately, never as a property violation
   (IF Is("log_append") /\ ~Has("err") /\ ~AppendContiguous(Log(Ev.node))
      THEN {V("X", "AppendNotContiguous", <<Ev.node>>)} ELSE {})
@@ -581,7 +650,7 @@ NewBad ==
              \cup C03_FutureTruth \cup C03_AtMostOnce \cup C03_RealTime \cup C03_NoInvention
              \cup C04_AckDurable \cup C04_Replay \cup C05_Reads \cup C14_Abort \cup C18_Panic \cup Recorder
              \cup C15_Converge \cup C18_Futures \cup C09_FutureTruth
-             \cup C16_Healthy
+             \cup C16_Healthy \cup C10_Snapshot \cup C10_Fsm \cup C11_Log
              \cup C09_CfgAgreement \cup C09_LeaderVotes \cup C09_VoteRequests \cup C09_CommitMajority
       \* violations of the replication-safety clauses after the S5 signature carry its tag
       tagged == {IF (s5 \/ KF_S5) /\ b.p \in {"C01", "C02", "C03", "C04", "C05", "C07", "C09"}
@@ -599,7 +668,7 @@ Init ==
   /\ dur = <<>> /\ pstate = <<>> /\ maxterm = <<>> /\ votes = {} /\ applied = <<>> /\ cursor = <<>>
   /\ leaders = <<>> /\ lfirst = {} /\ committed = <<>> /\ reqs = <<>> /\ hpre = <<>> /\ stat = <<>>
   /\ inv = <<>> /\ wdone = {} /\ rdone = {} /\ retd = {} /\ dead = {} /\ mtrack = <<>> /\ mwait = <<>>
-  /\ finals = <<>> /\ healed = FALSE /\ s5 = FALSE /\ hl = NoHealthy /\ bad = {}
+  /\ finals = <<>> /\ healed = FALSE /\ s5 = FALSE /\ hl = NoHealthy /\ fsmc = <<>> /\ taken = {} /\ sopen = <<>> /\ bad = {}
 
 Next ==
   /\ l <= Len(Trace)
@@ -631,6 +700,9 @@ Next ==
   /\ healed' = (IF Is("scenario") THEN FALSE ELSE IF Is("heal") THEN TRUE ELSE healed)
   /\ s5' = (IF Is("scenario") THEN FALSE ELSE s5 \/ KF_S5)
   /\ hl' = NextHl
+  /\ fsmc' = NextFsmc
+  /\ taken' = (IF Is("scenario") THEN {} ELSE IF OwnSnapshot THEN taken \cup {<<Ev.index, Ev.term, Ev.h, Ev.size>>} ELSE taken)
+  /\ sopen' = (IF Is("scenario") THEN <<>> ELSE IF Is("snap_open") /\ ~Has("err") THEN Put(sopen, Ev.node, Ev.index) ELSE sopen)
 
 Spec == Init /\ [][Next]_vars
 
